@@ -1,6 +1,6 @@
 (* C13 model, part 5: s-expression codecs and the entry point run_C13. *)
 From Coq Require Import List Ascii String Bool Arith ZArith.
-From Verif Require Import Lib.Sexp Model.C13_strings Model.C13_google Model.C13_google_spec Model.C13_sphinx Model.C13_numpy Model.C13_numpy_spec Model.C13_sphinx_spec.
+From Verif Require Import Lib.Sexp Model.C13_strings Model.C13_google Model.C13_google_spec Model.C13_sphinx Model.C13_numpy Model.C13_numpy_spec Model.C13_sphinx_spec Model.C13_history.
 Import ListNotations.
 Open Scope string_scope.
 Open Scope list_scope.
@@ -168,6 +168,55 @@ Definition dec_xfield (s : sexp) : option xfield :=
   | _ => None
   end.
 
+(* ---- histories *)
+Definition okey_of (s : string) : okey :=
+  if String.eqb s "returns_multiple_items" then ORetMulti else
+  if String.eqb s "returns_named_value" then ORetNamed else
+  if String.eqb s "receives_multiple_items" then ORecMulti else
+  if String.eqb s "receives_named_value" then ORecNamed else
+  if String.eqb s "trim_doctest_flags" then OTrim else
+  if String.eqb s "ignore_init_summary" then OIgnoreInit else OOther.
+Definition okey_name (k : okey) : string :=
+  match k with
+  | ORetMulti => "returns_multiple_items" | ORetNamed => "returns_named_value" | ORecMulti => "receives_multiple_items"
+  | ORecNamed => "receives_named_value" | OTrim => "trim_doctest_flags" | OIgnoreInit => "ignore_init_summary" | OOther => "other"
+  end.
+Definition dec_odict (s : sexp) : option odict :=
+  as_list_of (fun e => match e with SList [SStr k; v] => do v' <- as_bool v; Some (okey_of k, v') | _ => None end) s.
+Definition enc_odict (d : odict) : sexp := SList (map (fun kv => SList [SStr (okey_name (fst kv)); of_bool (snd kv)]) d).
+Definition dec_hstyle (s : sexp) : option (option hstyle) :=
+  match s with
+  | SList [] => Some None
+  | SList [SStr "google"] => Some (Some HGoogle)
+  | SList [SStr "numpy"] => Some (Some HNumpy)
+  | SList [SStr "sphinx"] => Some (Some HSphinx)
+  | _ => None
+  end.
+Definition dec_hdoc (s : sexp) : option hdoc :=
+  match s with
+  | SList [c; ii; ra; st; r; ls] =>
+      do c' <- dec_ctx c; do ii' <- as_bool ii; do ra' <- as_bool ra; do st' <- dec_hstyle st; do r' <- as_nat r; do ls' <- dec_strs ls;
+      Some (mkHD ls' (mkHP c' ii' ra') st' r' None)
+  | _ => None
+  end.
+Definition dec_hop (s : sexp) : option hop :=
+  match s with
+  | SList [SStr "parse"; i; st; o] => do i' <- as_nat i; do st' <- dec_hstyle st; do o' <- dec_odict o; Some (HParse i' st' o')
+  | SList [SStr "parsed"; i] => do i' <- as_nat i; Some (HReadParsed i')
+  | SList [SStr "setopts"; i; o] => do i' <- as_nat i; do o' <- dec_odict o; Some (HSetOptions i' o')
+  | SList [SStr "mutate"; r; SStr k; v] => do r' <- as_nat r; do v' <- as_bool v; Some (HMutate r' (okey_of k) v')
+  | _ => None
+  end.
+Definition enc_hres (r : hres) : sexp :=
+  match r with
+  | HPlain v => SList [SStr "plain"; enc_str v]
+  | HG p => enc_presult p
+  | HN p => enc_presult p
+  | HS l => SList [SStr "ok"; SList (map enc_gsec l)]
+  end.
+Definition enc_hobs (o : hobs) : sexp :=
+  match o with ObsRes r => SList [SStr "res"; enc_hres r] | ObsNone => SList [SStr "none"] | ObsBadIndex => SList [SStr "bad"] end.
+
 Definition enc_pair (p : str * str) : sexp := SList [enc_str (fst p); enc_str (snd p)].
 
 (* string-function oracle: ("str" name args...) *)
@@ -253,6 +302,13 @@ Definition run_C13 (s : sexp) : sexp :=
   | SList [SStr "gwf"; o; c; secs] =>
       match dec_opts o, dec_ctx c, as_list_of dec_wsec secs with
       | Some o', Some c', Some secs' => of_bool (wf_secs o' c' secs')
+      | _, _, _ => bad_input
+      end
+  | SList [SStr "hist"; heap; docs; ops] =>
+      match as_list_of dec_odict heap, as_list_of dec_hdoc docs, as_list_of dec_hop ops with
+      | Some h, Some ds, Some os =>
+          let '(st, obs) := hexec (mkHS h ds) os in
+          SList [SList (map enc_hobs obs); SList (map enc_odict (hs_heap st)); SList (map (fun d => of_nat (hd_ref d)) (hs_docs st))]
       | _, _, _ => bad_input
       end
   | SList [SStr "nparse"; SList [tr; sk]; c; ls] =>
